@@ -102,6 +102,10 @@ source_adapt(ByteSource source, void *driver, void *buf, const size_t n)
         const int rc = source(driver, data + n - rest);
         if (rc == -EINTR || rc == -EAGAIN) {
             continue;
+        } else if (rc == -ENODATA && rest < n) {
+            /* The source ended after delivering some octets. Hand those out;
+             * the next call reports the end of the source. */
+            return (ssize_t)(n - rest);
         } else if (rc < 0) {
             return (ssize_t)rc;
         }
